@@ -297,6 +297,9 @@ def make_failure(kind, where):
     return AppFailure(msg)
 
 
+LATE_BODY = b"late-error-page-21byt"
+
+
 class _Iter:
     """Iterable with optional close(), lazy start_response, failure points."""
 
@@ -317,12 +320,34 @@ class _Iter:
             self.started = True
             self.start()
         fail = self.prog.spec.get("fail")
+        if getattr(self, "late", None) is not None:
+            if self.late:
+                c, self.late = self.late[0], self.late[1:]
+                return c
+            raise StopIteration
         if isinstance(fail, list) and fail[0] == "after_chunk" and self.i == fail[1]:
+            if self.prog.spec.get("fail_exc_info"):
+                # error-middleware idiom: the failure is caught and an error page offered through start_response(..., exc_info);
+                # the server has to refuse (re-raise) once the head of the first response has gone out
+                try:
+                    raise make_failure(self.prog.spec.get("fail_exc"), "after chunk %d" % self.i)
+                except Exception:
+                    import sys
+                    try:
+                        self.prog._sr("500 Late Error", [("Content-Length", str(len(LATE_BODY)))], sys.exc_info())
+                    except Exception:
+                        self.prog.rec["failed_at"] = "after_chunk_%d" % self.i
+                        raise
+                self.prog.rec["late_replaced"] = True
+                self.late = [LATE_BODY]
+                return self.__next__()
             self.prog.rec["failed_at"] = "after_chunk_%d" % self.i
             raise make_failure(self.prog.spec.get("fail_exc"), "after chunk %d" % self.i)
         if self.i >= len(self.chunks):
             raise StopIteration
         c = self.chunks[self.i]
+        if self.i >= 1 and self.prog.spec.get("chunk_delay"):
+            time.sleep(self.prog.spec["chunk_delay"])      # a slow producer (cooperative under gevent / eventlet)
         self.i += 1
         self.prog.rec["produced"].append(c)
         if self.i == 2 and self.prog.spec.get("read_when") == "after_first_chunk":
@@ -354,6 +379,7 @@ class AppProgram:
 
     def _call(self, environ, start_response):
         spec = self.spec
+        self._sr = start_response
         rec = self.rec = {"environ": {k: v for k, v in environ.items() if isinstance(v, (str, int, bool, tuple))},
                           "input": None, "produced": [], "close_calls": 0, "failed_at": None,
                           "start_calls": 0, "written": []}
